@@ -54,7 +54,7 @@ func init() {
 		Exhaustive: func(tier string) bool { return tier == "thorough" },
 		N: func(tier string) int {
 			if tier == "quick" {
-				return len(c18QuickVectors()) + 20000
+				return len(c18QuickVectors()) + 60000
 			}
 			return tfGridSize()
 		},
